@@ -51,6 +51,8 @@ val concat : 'a1 list list -> 'a1 list
 
 val map : ('a1 -> 'a2) -> 'a1 list -> 'a2 list
 
+val fold_left : ('a1 -> 'a2 -> 'a1) -> 'a2 list -> 'a1 -> 'a1
+
 val fold_right : ('a2 -> 'a1 -> 'a1) -> 'a1 -> 'a2 list -> 'a1
 
 val existsb : ('a1 -> bool) -> 'a1 list -> bool
@@ -88,6 +90,8 @@ module Pos :
   val mul : positive -> positive -> positive
 
   val size_nat : positive -> nat
+
+  val size : positive -> positive
 
   val compare_cont : comparison -> positive -> positive -> comparison
 
@@ -130,6 +134,8 @@ module Z :
 
   val max : z -> z -> z
 
+  val min : z -> z -> z
+
   val to_nat : z -> nat
 
   val of_nat : nat -> z
@@ -141,6 +147,8 @@ module Z :
   val div : z -> z -> z
 
   val modulo : z -> z -> z
+
+  val log2 : z -> z
  end
 
 type err =
@@ -176,6 +184,8 @@ type val0 =
 | VL of val0 list
 
 val vnat : nat -> val0
+
+val vbool : bool -> val0
 
 val vstr : str -> val0
 
@@ -801,5 +811,192 @@ val v_outp : outp -> val0
 val v_piece : piece -> val0
 
 val dispatch_placeholder : z -> val0 -> val0 option
+
+val is_blank : z -> bool
+
+val non_blank : z -> bool
+
+val span0 : ('a1 -> bool) -> 'a1 list -> 'a1 list * 'a1 list
+
+val awk_fields_from : nat -> str -> str list
+
+val awk_lead : str -> str
+
+val awk_fields : str -> str list
+
+val is_prefix : str -> str -> bool
+
+val split_after_go : str -> nat -> str -> str -> str list
+
+val split_after0 : str -> str -> str list
+
+val split_by_from : nat -> (nat * nat) list -> str -> str list
+
+val split_by : (nat * nat) list -> str -> str list
+
+val locs_wfb : nat -> nat -> (nat * nat) list -> bool
+
+val offsets : nat -> str list -> nat list
+
+val nat_list_eqb : nat list -> nat list -> bool
+
+val partition_ok : str -> str -> str list -> nat list -> bool
+
+type fexpr =
+| FIdx of z
+| FRange of z option * z option
+
+val resolve : z -> z -> z
+
+val sel_bounds : fexpr -> z -> z * z
+
+val select_fields : fexpr -> 'a1 list -> 'a1 list
+
+val select_first : fexpr -> nat -> nat
+
+val select_text : fexpr -> str list -> str
+
+val select_start : fexpr -> nat -> str list -> nat
+
+val digits_of : nat -> z -> str -> str
+
+val digits : z -> str
+
+val itoa0 : z -> str
+
+val dOT : z
+
+val print_fexpr : fexpr -> str
+
+val is_space0 : z -> bool
+
+val trim_right : (z -> bool) -> str -> str
+
+val inside_selection : fexpr -> nat -> str list -> nat -> nat -> bool
+
+type token = { t_text : str; t_prefix : z }
+
+type delimiter =
+| DAwk
+| DStr of str
+| DRegex of (str -> (nat * nat) list)
+
+val is_awk : delimiter -> bool
+
+val slice : str -> nat -> nat -> str res
+
+val with_prefix_lengths : str list -> z -> token list
+
+type awk_state0 =
+| AwkNil0
+| AwkBlack0
+| AwkWhite0
+
+val awk_loop : awk_state0 -> str -> str list -> z -> str -> str list * z
+
+val awk_tokenizer : str -> str list * z
+
+val regex_tokens : str -> nat -> (nat * nat) list -> str list res
+
+val tokenize0 : str -> delimiter -> token list res
+
+val has_prefix0 : str -> str -> bool
+
+val has_suffix0 : str -> str -> bool
+
+val contains : str -> str -> bool
+
+val trim_suffix0 : str -> str -> str
+
+val split_go : str -> nat -> str -> str -> str list
+
+val split : str -> str -> str list
+
+val is_digit0 : z -> bool
+
+val digits_value : str -> z
+
+val iNT_MIN : z
+
+val iNT_MAX : z
+
+val atoi0 : str -> z option
+
+type range = z * z
+
+val new_range0 : z -> z -> range
+
+val dD : str
+
+val parse_range0 : str -> range option
+
+val range_to_string : range -> str
+
+val ranges_to_string : range list -> str
+
+val join_tokens : token list -> str
+
+val adj : z -> z -> z
+
+val collect : token list -> z -> nat -> z -> z -> str list res
+
+val transform_one : token list -> range -> token res
+
+val transform : token list -> range list -> token list res
+
+val strip_last_delimiter : str -> delimiter -> str res
+
+val map_last : ('a1 -> 'a1 res) -> 'a1 list -> 'a1 list res
+
+val transform_input : str -> range list -> delimiter -> token list res
+
+type match_fn = str -> ((nat * nat) * nat list) option
+
+val iter : match_fn -> token list -> ((z * z) * z list) option
+
+val nth_match :
+  match_fn -> str -> range list -> delimiter -> ((z * z) * z list) option res
+
+val nth_transformer : range list -> token list -> str res
+
+val accept_nth : str -> range list -> delimiter -> str res
+
+val vtok : token -> val0
+
+val vtoks : token list -> val0
+
+val as_tok : val0 -> token
+
+val as_toks : val0 -> token list
+
+val as_loc : val0 -> nat * nat
+
+val as_locs : val0 -> (nat * nat) list
+
+val rx_lookup : (str * (nat * nat) list) list -> str -> (nat * nat) list
+
+val as_rx : val0 -> str -> (nat * nat) list
+
+val as_delim : val0 -> delimiter
+
+val as_range : val0 -> range
+
+val as_ranges : val0 -> range list
+
+val as_optz : val0 -> z option
+
+val as_fexpr : val0 -> fexpr
+
+val mf_lookup :
+  (str * ((nat * nat) * nat list) option) list -> str -> ((nat * nat) * nat
+  list) option
+
+val as_match_fn : val0 -> match_fn
+
+val vres : ('a1 -> val0) -> 'a1 res -> val0
+
+val vmatch : ((z * z) * z list) option -> val0
+
+val dispatch_token : z -> val0 -> val0 option
 
 val dispatch : z -> val0 -> val0
